@@ -396,7 +396,7 @@ class HamiltonianChain(MarkovChain):
         :return: \
             The sample as a ``numpy.ndarray`` of shape ``(n_samples, n_parameters)``.
         """
-        return array(self.theta[burn::thin])
+        return array(self.theta[burn::thin]).reshape([-1, self.n_parameters])
 
     def mode(self) -> ndarray:
         return array(self.theta[argmax(self.probs)]).squeeze()
